@@ -190,7 +190,7 @@ class FnTr(object):
                 if t != "ref":
                     refuse(x, "element of type %s in a list/tuple display" % t)
                 vals.append(v)
-            return ("[%s]" % "; ".join(vals) if vals else "(@nil nat)"), "refs", True
+            return ("[%s]" % "; ".join(vals) if vals else "(@nil nat)"), "refs", isinstance(e, ast.List)
         if isinstance(e, ast.Subscript):
             if not isinstance(e.ctx, ast.Load):
                 refuse(e, "subscript context")
@@ -266,7 +266,7 @@ class FnTr(object):
                 refuse(e, "toolbox.%s with %d arguments" % (f.attr, len(args)))
             t = self.temp()
             binds.append((t, sig[1] % tuple(args)))
-            return t, sig[2], True
+            return t, sig[2], False     # a tuple (or whatever the operator returns): never changed in place here
         if self.random_attr(f):
             if f.attr == "random" and not e.args:
                 t = self.temp()
